@@ -289,8 +289,10 @@ func runCase(c *vrun.Case, s scenario) vrun.Result {
 	_ = plans
 	close(start)
 	var closeErr error
+	closeCalledAt := int64(1) << 62
 	if s.Overlap {
 		time.Sleep(time.Duration(c.Rng.Intn(5)) * time.Millisecond)
+		closeCalledAt = w.Clock.Tick()
 		closeErr = up.Close(ctx)
 		wg.Wait()
 	} else {
@@ -328,11 +330,40 @@ func runCase(c *vrun.Case, s scenario) vrun.Result {
 	mk := func(f *uplib.Finding) vrun.Result {
 		return vrun.Violation(f.Clause, f.Key, map[string]any{"detail": f.Detail, "writes": len(writes), "chunks": len(us.Chunks), "broker_notes": w.B.Errors})
 	}
-	if f := uplib.CheckConservation(writes, &us, uplib.Opts{RequireAll: !s.Overlap, CheckClose: !s.Overlap}); f != nil {
-		return mk(f)
+	// When Close overlaps the writers the statement's precondition ("calls that returned nil FOLLOWED BY a successful
+	// Close") holds only for the writes that had returned before Close was called: those must be conserved; for the
+	// others only the unconditional safety clauses are judged, and what happened to them is reported as an observation.
+	strict := writes
+	if s.Overlap {
+		strict = nil
+		for _, wr := range writes {
+			if wr.Return != 0 && wr.Return < closeCalledAt {
+				strict = append(strict, wr)
+			}
+		}
 	}
-	if f := uplib.ChunkAfterClose(ledger, &us); f != nil && !s.Overlap {
-		return mk(f)
+	overlapLost := 0
+	if s.Overlap {
+		if f := uplib.CheckConservation(writes, &us, uplib.Opts{}); f != nil { // safety only: nothing altered, duplicated, reused
+			f.Key += ":close-overlapping-writers"
+			return mk(f)
+		}
+		if f := uplib.CheckSubset(strict, &us); f != nil {
+			f.Key += ":close-overlapping-writers"
+			return mk(f)
+		}
+		if f := uplib.CheckConservation(writes, &us, uplib.Opts{RequireAll: true, CheckClose: true}); f != nil {
+			overlapLost = 1 // observation: a write accepted while Close was running was not accounted for
+		} else if f := uplib.ChunkAfterClose(ledger, &us); f != nil {
+			overlapLost = 1
+		}
+	} else {
+		if f := uplib.CheckConservation(writes, &us, uplib.Opts{RequireAll: true, CheckClose: true}); f != nil {
+			return mk(f)
+		}
+		if f := uplib.ChunkAfterClose(ledger, &us); f != nil {
+			return mk(f)
+		}
 	}
 	if len(closed) != 1 {
 		return vrun.Violation("closed notification delivered a number of times other than once", "closed-event-count", map[string]any{"times": len(closed)})
@@ -376,6 +407,7 @@ func runCase(c *vrun.Case, s scenario) vrun.Result {
 	}
 	if s.Overlap {
 		r.Stat("cases_close_overlapping_writers", 1)
+		r.Stat("observation_overlap_cases_with_a_write_accepted_during_close_not_accounted", int64(overlapLost))
 	}
 	r.AddSet("policy_tuples", fmt.Sprintf("%s|%s|%s|%s", s.Flush, s.QoS, s.Ack, s.Alias))
 	return r
